@@ -34,7 +34,9 @@ def movers(rng, n):
             out.append({'k': 'pseudo', 'm': 'li', 'ops': [{'r': rng.choice([5, 8, 15])}, {'i': rng.choice([0, 7, 31, 100, 2047, -2048, 0x12345])}]})
         elif c < 0.7:
             out.append(randprog.plain_inst(rng, 1.0))
-        elif c < 0.78:
+        elif c < 0.74:
+            out.append({'k': 'string', 'text': rng.choice(['é', 'ab€x', 'Ωß', 'q中z ', '😀', 'okay'])})     # all of even UTF-8 length
+        elif c < 0.80:
             out.append({'k': 'seq', 'd': rng.choice(['shorts', 'ints', 'longs', 'longs', 'longlongs']), 'vals': [rng.randrange(0, 1 << 15) for _ in range(rng.randint(1, 3))]})
         elif c < 0.88:
             out.append({'k': 'align', 'n': rng.choice([2, 4, 8, 16])})
